@@ -226,7 +226,10 @@ impl<'c> Exec<'c> {
     fn on(&self, p: &str) -> bool {
         // C05 (every completion reaches its operation once, in publication
         // order) is judged by the same per-operation FIFO as C02.
-        self.prop == p || (self.prop == "C05" && p == "C02")
+        // C12 (teardown): the Ring dropped with multi-completion operations
+        // abandoned or in flight; judged by C06's reclaim/double-free audit
+        // and C01's kernel-held-memory audit.
+        self.prop == p || (self.prop == "C05" && p == "C02") || (self.prop == "C12" && (p == "C06" || p == "C01"))
     }
 
     fn fail(&mut self, prop: &str, kind: &str, msg: String) {
